@@ -459,3 +459,110 @@ for _c in CONTRACTS:
     if isinstance(_c, GetTotalNumPoints):
         _c.applies = lambda receiver, args: "ghost_E" in receiver.fields
 CONTRACTS += [FDictSize(), DistinctPoints(), TotalNumPointsDistinct()]
+
+
+# --------------------------------------------------------------------------- performSpatiallyAdaptiv: a run starts with an empty history; a refused request keeps the old one
+# C13 speaks about the arrays an adaptive run returns (one entry per evaluation of the run).  Two facts about the entry point carry that across calls on one driver
+# object: (i) when the driver loop is entered the history arrays are empty, so the loop's "L0 + (E - E0)" is the number of evaluations of THIS run; (ii) the argument
+# validation (init_adaptive_combi: asserts) happens before the history of the previous run is cleared, so a request that is refused leaves that history intact and a
+# later continue_adaptive_refinement still returns one entry per evaluation of the run it continues.
+class InitAdaptiveCombi(Contract):
+    file, qualname = FILE, "SpatiallyAdaptivBase.init_adaptive_combi"
+    trusted = True
+    note = ("abstract step: validates lmin / lmax (two leading asserts: may refuse with AssertionError before changing anything the contract below speaks about) and "
+            "builds scheme / refinement / operation state; does not touch the history arrays")
+    modifies = ("scheme", "lmax")
+
+    def inputs(self, S):
+        return {"self": driver(S, True), "lmin": Opaque(S.const("lmin_arg", P.U)), "lmax": Opaque(S.const("lmax_arg", P.U)),
+                "refinement_container": None, "tol": S.real("tol")}
+
+    def result(self, S, env):
+        if S.ex.decide(S.bool("request_refused")):
+            from pyvc.engine import RaiseEx
+            raise RaiseEx("AssertionError", S.ex.fn)
+        return None
+
+    def havoc(self, S, cenv, tag):
+        f = cenv["self"].fields
+        f["ghost_init"] = f.get("ghost_init", 0) + 1        # ghost counter: how often the scheme / refinement state was (re)built in this call
+
+
+class GetReferenceSolution(Contract):
+    file, qualname = "sparseSpACE/GridOperation.py", "Integration.get_reference_solution"
+    trusted = True
+    note = "pure query of the operation"
+
+    def inputs(self, S):
+        return {"self": Obj("Integration", {})}
+
+    def result(self, S, env):
+        return Opaque(S.const("reference_solution", P.U))
+
+
+class _DriverLoopForCallers(Contract):
+    """caller-side form of continue_adaptive_refinement inside performSpatiallyAdaptiv: its precondition is what the entry point has to establish -- empty history arrays"""
+    file, qualname = FILE, "SpatiallyAdaptivBase.continue_adaptive_refinement"
+    trusted = True
+    note = "proved separately (ContinueAdaptiveRefinement); here only its call-site precondition `the run starts with an empty history` and an opaque result are used"
+    defaults = {"tol": None, "max_time": None, "max_evaluations": None, "min_evaluations": 1}
+
+    def applies(self, receiver, args):
+        return getattr(receiver, "entry_point_call", False)
+
+    def inputs(self, S):
+        return {"self": driver(S, True), "tol": S.real("tol"), "max_time": None, "max_evaluations": None, "min_evaluations": S.int("min_evaluations")}
+
+    def pre(self, S, env):
+        f = env["self"].fields
+        n = [f[k].len() if isinstance(f[k], Seq) else None for k in ("error_array", "surplus_error_array", "num_point_array")]
+        ok = all(x is not None for x in n)
+        return [("the-run-starts-with-an-empty-history", z3.And(*[V(x) == 0 for x in n]) if ok else z3.BoolVal(False)),
+                ("the-scheme-was-initialised-once-for-this-run", V(f.get("ghost_init", 0)) == 1)]
+
+    def result(self, S, env):
+        return Opaque(S.const("run_result", P.U))
+
+
+class PerformSpatiallyAdaptiv(Contract):
+    file, qualname = FILE, "SpatiallyAdaptivBase.performSpatiallyAdaptiv"
+    total = False
+
+    def inputs(self, S):
+        s = driver(S, True)
+        s.entry_point_call = True
+        s.fields["ghost_init"] = 0
+        op = lambda n: Opaque(S.const(n, P.U))  # noqa
+        return {"self": s, "lmin": op("lmin_arg"), "lmax": op("lmax_arg"), "errorOperator": op("errorOperator"), "tol": S.real("tol"), "refinement_container": None,
+                "do_plot": False, "recalculate_frequently": S.bool("recalculate_frequently"), "test_scheme": False, "reevaluate_at_end": S.bool("reeval_arg"),
+                "max_time": None, "max_evaluations": None, "print_output": False, "min_evaluations": S.int("min_evaluations"), "solutions_storage": None,
+                "evaluation_points": None, "single_step": False}
+
+    def post_raise(self, S, old, env, exc_name):
+        if exc_name != "AssertionError":
+            return None
+        f, g = env["self"].fields, old["self"].fields
+        same = []
+        for k in ("error_array", "surplus_error_array", "num_point_array"):
+            a_, b_ = f[k], g[k]
+            if not (isinstance(a_, Seq) and isinstance(b_, Seq)):
+                same.append(z3.BoolVal(False))
+                continue
+            if a_ is b_:
+                continue
+            try:
+                arr_eq = a_.to_symbolic().arr == b_.to_symbolic().arr
+            except z3.Z3Exception:      # a new list whose (absent) elements have another sort: equal to the old array exactly when both are empty
+                arr_eq = V(a_.len()) == 0
+            same.append(z3.And(V(a_.len()) == V(b_.len()), arr_eq))
+        return [Cl("a-refused-request-keeps-the-history-of-the-previous-run", z3.And(*same) if same else z3.BoolVal(True), prop=True)]
+
+    def post(self, S, old, env, result):
+        return [Cl("returns-what-the-driver-loop-returns", isinstance(result, Opaque), prop=False)]
+
+    @staticmethod
+    def model_to_input(model):
+        return {"kind": "C13.refused_request"}
+
+
+CONTRACTS = [_DriverLoopForCallers()] + CONTRACTS + [InitAdaptiveCombi(), GetReferenceSolution(), PerformSpatiallyAdaptiv()]
